@@ -25,7 +25,8 @@ pub fn init_matches(r: &RefInit, o: &ObsInit) -> bool {
     match (r, o) {
         (RefInit::Ok, ObsInit::Ok) => true,
         (RefInit::Driver(a), ObsInit::DriverErr(b)) => a == b,
-        (RefInit::MissingOutputs(_), ObsInit::Runtime(s)) => s.contains("not returned by the driver"),
+        // any error from the constructor that is not the driver's own (the wording is not specified)
+        (RefInit::MissingOutputs(_), ObsInit::Runtime(_)) => true,
         _ => false,
     }
 }
